@@ -26,10 +26,11 @@ type Stats struct {
 	scenHash uint64
 
 	// what is executing right now, for the watchdog (not serialised)
-	curFault *scen.Fault
-	curMode  string
-	progress atomic.Int64
-	inflight *os.File
+	curFault    *scen.Fault
+	curMode     string
+	progress    atomic.Int64
+	progressCPU atomic.Int64
+	inflight    *os.File
 }
 
 // InFlight records, outside the process (a file the parent reads if this
@@ -59,6 +60,7 @@ func (s *Stats) InFlight(sc any) {
 func (s *Stats) Doing(f *scen.Fault, mode string) {
 	s.curFault, s.curMode = f, mode
 	s.progress.Store(time.Now().UnixNano())
+	s.progressCPU.Store(int64(processCPU()))
 }
 
 func NewStats() *Stats {
